@@ -158,6 +158,20 @@ CHECKS = {
               "through the requested unit with a 1e-6 lattice tolerance."),
         technique="TLA+ spec (SampleFile/SampleFileMC) model-checked with TLC; replay of TLC-enumerated histories on real files; trace validation by total monitor",
     ),
+    "C17": dict(
+        category="model_checking",
+        text=("TLC checks the theorems of SampleTable over a lattice of rows (K in -2..2, omega / M0 in units of pi/4 not reduced to a turn, "
+              "P a multiple of 8 d): wrap_K keeps every row's RV curve at all 8 phases, makes K non-negative, leaves non-negative rows "
+              "alone, is idempotent; get_time_with_phase hits exactly the requested mean anomaly (and no other of the 8 phases). Every "
+              "table of <=2 rows TLC enumerates is built as a real JokerSamples (rotating deg/rad, m/s / km/s, d / yr, t_ref present "
+              "/ absent, poly_trend 1/2, n_offsets 0/1) and put through wrap_K, get_time_with_phase / get_t0, pack->unpack, integer / "
+              "slice / mask / array indexing, copy, mean, std, median_period; results projected to the lattice are validated by the "
+              "SampleTableTrace monitor; seeded random tables go to 300 rows."),
+        design_ref="DESIGN.md section 3 C17",
+        note=("Trusted: TLC, astropy. pack->unpack identity is checked with the table's own units (and for tables already in internal "
+              "units with default arguments): pack() by design converts to internal units otherwise. Lattice tolerance 1e-7."),
+        technique="TLA+ spec (SampleTable) theorems model-checked with TLC; replay of TLC-enumerated tables; trace validation by total monitor",
+    ),
 }
 
 NOT_YET = "check not built yet (build in progress; see DESIGN.md section 7)"
